@@ -89,7 +89,7 @@ func cmdWorkScan(args []string) error {
 				cs.Tags = append(cs.Tags, "F7")
 			}
 		}
-		if cs.Alloc > 1<<20+16*uint64(memLen) {
+		if cs.Alloc > 1<<17+16*uint64(memLen) {
 			cs.Oracle = append(cs.Oracle, fmt.Sprintf("C20: %s allocated %d bytes with %d bytes of memory for %d gas (length field 2^%d)", what, cs.Alloc, memLen, cs.GasStep, k))
 			if what == "VRJNAL long-form length" {
 				cs.Tags = append(cs.Tags, "F7")
@@ -147,6 +147,35 @@ func cmdWorkScan(args []string) error {
 			b.Push(10).Push(0).Push(1).Push(0).Op(0xe1)
 			b.Push(10).Push(32).Push(0).Push(1).Op(0xe6).Op(asm.STOP)
 			run("VVJNAL", k, b.Bytes(), map[uint64]*big.Int{1: lw})
+		}
+	}
+	// (6) pointer operands far beyond the frame's memory: the instruction must fail (or read nothing) without
+	//     growing memory it was not paid for
+	for k := 10; k <= 24; k += 2 {
+		ptr := uint64(1) << uint(k)
+		{
+			b := asm.New()
+			b.Push(0).Push(0).Op(asm.MSTORE)
+			b.Push(10).Push(1).Push(ptr).Op(0xe0).Op(asm.STOP)
+			run("RSVJNAL pointer beyond memory", k, b.Bytes(), nil)
+		}
+		{
+			b := asm.New()
+			b.Push(0).Push(0).Op(asm.MSTORE)
+			b.Push(10).Push(0).Push(1).Push(ptr).Op(0xe1).Op(asm.STOP)
+			run("VSVJNAL pointer beyond memory", k, b.Bytes(), nil)
+		}
+		{
+			b := asm.New()
+			b.Push(0).Push(0).Op(asm.MSTORE)
+			b.Push(11).Push(10).Push(0).Push(ptr).Push(2).Push(1).Op(0xe2).Op(asm.STOP)
+			run("IRVVJNAL key pointer beyond memory", k, b.Bytes(), nil)
+		}
+		{
+			b := asm.New()
+			b.Push(0).Push(0).Op(asm.MSTORE)
+			b.Push(11).Push(10).Push(ptr).Push(2).Push(1).Op(0xe3).Op(asm.STOP)
+			run("IRVRJNAL key pointer beyond memory", k, b.Bytes(), nil)
 		}
 	}
 	if err := writeJSON(c.out, "cases.json", cases); err != nil {
